@@ -749,6 +749,259 @@ def encode_merkle(c, o):
     return tm((ops, obs))
 
 
+# --------------------------------------------------------------------------- T-Digest
+def fl(x):
+    """binary64 literal for the case file (bit-exact)."""
+    x = float(x)
+    if x != x or x in (float("inf"), float("-inf")):
+        raise ValueError("non-finite float in a case")
+    return Raw(f"({x.hex()})%float")
+
+
+def gen_tdigest(rng):
+    import math
+    comp = rng.choice([0.4, 1, 2, 3, 5, 10, 20, 100.0])
+    mode = rng.choice(["const", "few", "unif", "ints", "close", "neg"])
+    base = rng.choice([0.1, 0.3, 2.7, 1e-3, 123.456])
+    pool = [rng.random() for _ in range(3)]
+
+    def value():
+        if mode == "const":
+            return base
+        if mode == "few":
+            return rng.choice(pool)
+        if mode == "unif":
+            return rng.uniform(0, 10)
+        if mode == "ints":
+            return rng.randint(0, 5) / 10
+        if mode == "close":
+            return base + rng.randint(0, 3) * math.ulp(base)
+        return rng.uniform(-5, 5)
+    ops = []
+    n_adds = rng.choice([0, 1, 2, 3, rng.randint(4, 40)])
+    for _ in range(n_adds):
+        ops.append(["add", rng.randrange(2) if rng.random() < 0.3 else 0, value(),
+                    1 if rng.random() < 0.75 else rng.choice([0, 2, 3, -1, 5])])
+        r = rng.random()
+        if r < 0.06:
+            ops.append(["quantile", rng.randrange(2), rng.choice([0.5, 0.0, 1.0, rng.random(), -0.1, 1.5])])
+        elif r < 0.10:
+            ops.append(["merge", rng.randrange(2), rng.randrange(2)])
+    if rng.random() < 0.5:
+        ops.append(["merge", 0, 1])
+    for sl in range(2):
+        qs = sorted(set([0.0, 1.0, 0.5, 0.25, 0.75] + [rng.random() for _ in range(rng.randint(3, 12))]
+                        + ([rng.choice([0.001, 0.999, 0.0001])] if rng.random() < 0.3 else [])))
+        rng.shuffle(qs) if rng.random() < 0.2 else None
+        ops += [["quantile", sl, q] for q in qs]
+    return dict(comp=comp, ops=ops)
+
+
+def _td_state(t):
+    return [[[c.mean, c.count] for c in t._centroids], t._total_count, t._min_value, t._max_value, list(t._buffer)]
+
+
+def impl_tdigest(c):
+    from happysimulator.sketching.tdigest import TDigest
+    slots = [TDigest(compression=c["comp"]) for _ in range(2)]
+    obs = []
+    for o in c["ops"]:
+        t = slots[o[1]]
+        raised, val = False, None
+        if o[0] == "add":
+            try:
+                t.add(o[2], o[3])
+            except ValueError:
+                raised = True
+        elif o[0] == "quantile":
+            try:
+                val = t.quantile(o[2])
+            except ValueError:
+                raised = True
+        else:
+            t.merge(slots[o[2]])
+        if t.min != t._min_value or t.max != t._max_value or t.item_count != t._total_count:
+            raise AssertionError("min/max/item_count accessors")
+        obs.append(_td_state(t) + [raised, val])
+    return dict(obs=obs, bufsize=slots[0]._buffer_size)
+
+
+def oracle_tdigest(c, o):
+    """Runs of consecutive quantile queries on one unchanged digest: non-decreasing in q,
+    inside [observed min, observed max]."""
+    vals = [[], []]                # true values added per slot
+    runs = {0: [], 1: []}
+    out = []
+
+    def close(sl):
+        run = runs[sl]
+        runs[sl] = []
+        if not run or not vals[sl]:
+            return
+        lo, hi = min(vals[sl]), max(vals[sl])
+        scale = max(abs(lo), abs(hi), 1e-300)
+        for q, v, mn, mx in run:
+            if mn != lo or mx != hi:
+                out.append(dict(clause="tdigest: min/max are the observed minimum and maximum", q=q, min=mn, max=mx, lo=lo, hi=hi))
+            if v < lo or v > hi:
+                ex = max(lo - v, v - hi)
+                out.append(dict(clause="tdigest: quantiles lie within the observed minimum and maximum",
+                                mechanism="float-rounding-range" if ex <= 1e-9 * scale else "out-of-range",
+                                q=q, value=v, min=lo, max=hi, excess=ex,
+                                what="TDigest.quantile leaves [min, max] by a few ulps (binary64 rounding of weighted centroid means / interpolation)"))
+        srt = sorted(run)
+        for (q1, v1, _, _), (q2, v2, _, _) in zip(srt, srt[1:]):
+            if v2 < v1:
+                out.append(dict(clause="tdigest: quantiles are non-decreasing in q",
+                                mechanism="float-rounding-monotone" if v1 - v2 <= 1e-9 * scale else "non-monotone",
+                                q1=q1, v1=v1, q2=q2, v2=v2,
+                                what="TDigest.quantile decreases by a few ulps as q grows (binary64 rounding of weighted centroid means / interpolation)"))
+    for op, ob in zip(c["ops"], o["obs"]):
+        sl = op[1]
+        if op[0] == "quantile":
+            if ob[6] is not None:
+                runs[sl].append((op[2], ob[6], ob[2], ob[3]))
+            elif 0 <= op[2] <= 1 and vals[sl]:
+                out.append(dict(clause="tdigest: quantile of a non-empty digest is defined", op=op))
+        else:
+            close(sl)
+            if op[0] == "add" and op[3] > 0:
+                vals[sl] += [op[2]] * op[3]
+            elif op[0] == "merge":
+                close(op[2])
+                vals[sl] = vals[sl] + vals[op[2]]
+    close(0)
+    close(1)
+    # one failure per mechanism is enough
+    seen, res = set(), []
+    for f in out:
+        key = (f["clause"], f.get("mechanism"))
+        if key not in seen:
+            seen.add(key)
+            res.append(f)
+    return res[:4]
+
+
+def attribute_tdigest(c, o, f):
+    return {"float-rounding-range": "C20-tdigest-range-rounding",
+            "float-rounding-monotone": "C20-tdigest-monotone-rounding"}.get(f.get("mechanism"))
+
+
+def encode_tdigest(c, o):
+    ops = []
+    for op in c["ops"]:
+        if op[0] == "add":
+            ops.append(Ctor("DAdd FA", op[1], fl(op[2]), op[3]))
+        elif op[0] == "quantile":
+            ops.append(Ctor("DQuantile FA", op[1], fl(op[2])))
+        else:
+            ops.append(Ctor("DMerge FA", op[1], op[2]))
+    fo = lambda x: None if x is None else SomeV(fl(x))  # noqa: E731
+    obs = [([(fl(m), n) for m, n in ob[0]], ob[1], fo(ob[2]), fo(ob[3]), [fl(v) for v in ob[4]], ob[5], fo(ob[6]))
+           for ob in o["obs"]]
+    return tm((fl(c["comp"]), o["bufsize"], ops, obs))
+
+
+# --------------------------------------------------------------------------- collector entities
+def gen_collectors(rng):
+    n_items = rng.randint(1, 8)
+    evs = []
+    for _ in range(rng.randint(0, 25)):
+        t = rng.choice([0.0, 0.5, 1.0, 1.0, 2.5, rng.randint(0, 30) / 10])
+        tgt = rng.randrange(3)
+        v = None if rng.random() < 0.15 else (rng.randrange(n_items) if tgt < 2 else rng.choice([0.1, 0.3, 2.7, rng.random()]))
+        evs.append([t, tgt, v, rng.choice([1, 1, 2, 5, 0])])
+    return dict(k=rng.choice([1, 2, 3]), w=rng.choice([2, 3, 5]), d=rng.choice([1, 2]), comp=rng.choice([1, 2, 5]),
+                weighted=rng.random() < 0.5, events=evs)
+
+
+def impl_collectors(c):
+    import happysimulator.sketching.count_min_sketch as cmod
+    from happysimulator import Event, Instant, Simulation
+    from happysimulator.components.sketching import QuantileEstimator, SketchCollector, TopKCollector
+    wx = (lambda e: e.context["w"]) if c["weighted"] else None
+    vx = lambda e: None if e.context["v"] is None else obj(e.context["v"])  # noqa: E731
+    tk = TopKCollector("topk", k=c["k"], value_extractor=vx, count_extractor=wx)
+    sk = SketchCollector("cms", cmod.CountMinSketch(width=c["w"], depth=c["d"], seed=3), value_extractor=vx, weight_extractor=wx)
+    qe = QuantileEstimator("quant", value_extractor=lambda e: e.context["v"], compression=c["comp"])
+    ents = [tk, sk, qe]
+    traces = [[], [], []]
+
+    def wrap(i, ent, view):
+        orig = ent.handle_event
+
+        def rec(ev):
+            out = orig(ev)
+            traces[i].append(dict(v=ev.context["v"], w=ev.context["w"] if (c["weighted"] and i < 2) else None,
+                                  nout=len(out or []), t=ev.time.to_seconds(), now=ent.now.to_seconds(), view=view()))
+            return out
+        ent.handle_event = rec
+    wrap(0, tk, lambda: [_topk_state(tk._topk), tk.events_processed, tk.total_count, tk.tracked_count])
+    wrap(1, sk, lambda: [_cms_state(sk.sketch), sk.events_processed])
+    wrap(2, qe, lambda: [_td_state(qe._tdigest), qe.events_processed, qe.sample_count])
+    sim = Simulation(entities=ents, duration=100)
+    for t, tgt, v, w in c["events"]:
+        sim.schedule(Event(time=Instant.from_seconds(t), event_type="Obs", target=ents[tgt], context={"v": v, "w": w}))
+    import contextlib
+    import io
+    with contextlib.redirect_stdout(io.StringIO()):
+        sim.run()
+    table = []
+    with patched(cmod) as rec:
+        for x in range(len(ITEMS)):
+            for r in range(c["d"]):
+                rec.digests.clear()
+                col = sk.sketch._hash(obj(x), r)
+                table.append([x, r, struct.unpack(">Q", rec.digests[-1][:8])[0] if rec.digests else col])
+    return dict(traces=traces, table=table, bufsize=qe._tdigest._buffer_size)
+
+
+def oracle_collectors(c, o):
+    from collections import Counter
+    out = []
+    for i in range(3):
+        sent = [e for e in c["events"] if e[1] == i]
+        tr = o["traces"][i]
+        if len(tr) != len(sent):
+            out.append(dict(clause="collector: every event is handled once", target=i, sent=len(sent), handled=len(tr)))
+            continue
+        if any(x["nout"] for x in tr) or any(x["t"] != x["now"] for x in tr) or [x["t"] for x in tr] != sorted(x["t"] for x in tr):
+            out.append(dict(clause="collector: sink (no output), handled at the event time in time order", target=i))
+        if tr and tr[-1]["view"][1] != len(tr):
+            out.append(dict(clause="collector: events_processed counts every event", target=i))
+    tr = o["traces"][0]
+    if tr:
+        true = Counter()
+        for x in tr:
+            if x["v"] is not None and (x["w"] if x["w"] is not None else 1) > 0:
+                true[x["v"]] += x["w"] if x["w"] is not None else 1
+        cnt, total = tr[-1]["view"][0]
+        n = sum(true.values())
+        if total != n or tr[-1]["view"][2] != n:
+            out.append(dict(clause="topk collector: total_count = sum of the counts added", total=total, n=n))
+        tracked = {e[0]: e for e in cnt}
+        for x, t in true.items():
+            if x in tracked and not (tracked[x][1] - tracked[x][2] <= t <= tracked[x][1]):
+                out.append(dict(clause="topk: estimate exceeds the true count by at most the reported error", item=x))
+            if x not in tracked and t > n // c["k"]:
+                out.append(dict(clause="topk: every item more frequent than N/k is tracked", item=x))
+    return out[:3]
+
+
+def encode_collectors(c, o):
+    t0, t1, t2 = o["traces"]
+    ov = lambda x: None if x is None else SomeV(x)  # noqa: E731
+    fo = lambda x: None if x is None else SomeV(fl(x))  # noqa: E731
+    tk = (c["k"], [(ov(x["v"]), ov(x["w"])) for x in t0],
+          [([(e[0], (e[1], e[2])) for e in x["view"][0][0]], x["view"][0][1], x["view"][1]) for x in t0])
+    cm = (c["w"], c["d"], [((x, r), h) for x, r, h in o["table"]], [(ov(x["v"]), ov(x["w"])) for x in t1],
+          [(x["view"][0][0], x["view"][0][1], x["view"][1]) for x in t1])
+    td = (fl(c["comp"]), o["bufsize"], [fo(x["v"]) for x in t2],
+          [(([(fl(m), n) for m, n in x["view"][0][0]], x["view"][0][1], fo(x["view"][0][2]), fo(x["view"][0][3]),
+             [fl(v) for v in x["view"][0][4]], False, None), x["view"][1]) for x in t2])
+    return tm((tk, cm, td))
+
+
 # --------------------------------------------------------------------------- families
 FAMILIES = [
     Family("bloom", IMPORTS, "ok_bloom", "Z * Z * list (Z * Z * (Z * Z)) * list b_op * list b_obs",
@@ -775,22 +1028,45 @@ FAMILIES = [
            gen_merkle, impl_merkle, encode_merkle, oracle_merkle,
            lambda c, o: any(ob[1] for ob in o["obs"]),
            describe=lambda c: f"ops={len(c['ops'])}"),
+    Family("tdigest", IMPORTS + "\nFrom Coq Require Import Floats.", "ok_tdigest",
+           "float * Z * list (td_op FA) * list (td_obs FA)",
+           gen_tdigest, impl_tdigest, encode_tdigest, oracle_tdigest,
+           lambda c, o: any(len(ob[0]) >= 2 for ob in o["obs"]), attribute_tdigest,
+           describe=lambda c: f"comp={c['comp']}"),
+    Family("collectors", IMPORTS + "\nFrom Coq Require Import Floats.", "ok_collectors",
+           "(Z * list (option Z * option Z) * list (list tk_entry * Z * Z)) * "
+           "(Z * Z * list (Z * Z * Z) * list (option Z * option Z) * list (list (list Z) * Z * Z)) * "
+           "(float * Z * list (option float) * list (td_obs FA * Z))",
+           gen_collectors, impl_collectors, encode_collectors, oracle_collectors,
+           lambda c, o: len(c["events"]) >= 3, parallel=True,
+           describe=lambda c: f"events={len(c['events']) // 5 * 5}+"),
 ]
 
 PROOF_FILES = ["C20/Model.v", "C20/Bloom.v", "C20/Counting.v", "C20/TopK.v", "C20/Reservoir.v", "C20/Merkle.v",
-               "C20/Props.v"]
+               "C20/TDigest.v", "C20/Props.v"]
 
-WEIGHT = {}
+WEIGHT = {"collectors": 0.5}
+
+# Kernel-native binary64 / int63 operations.  Print Assumptions lists them under "Axioms:" for the two
+# t-digest refutation theorems (which compute on PrimFloat); they are primitives, not logical axioms.
+FLOAT_PRIMS = ("PrimInt63.sub", "sub", "sqrt", "opp", "of_uint63", "mul", "ltb", "PrimInt63.lsl", "PrimInt63.lor",
+               "PrimFloat.leb", "PrimInt63.int", "float", "PrimFloat.eqb", "div", "add", "PrimFloat.ltb",
+               "PrimFloat.sub", "PrimFloat.add", "PrimFloat.mul", "PrimFloat.div", "PrimFloat.sqrt",
+               "PrimFloat.opp", "PrimFloat.of_uint63", "PrimInt63.add", "PrimInt63.mul", "PrimInt63.land",
+               "PrimInt63.lsr", "PrimInt63.eqb", "PrimInt63.ltb", "PrimInt63.leb")
 
 TRUSTED = [
     "Coq 8.16.1 kernel (coqc, vm_compute for refutation witnesses and case evaluation); no native_compute",
     "correspondence harness harness/props/c20.py (generators, observers, digest/RNG recording proxies, in-Coq comparison ok_* of C20/Model.v)",
     "hash functions (sha256, builtin hash) and random.Random draws are explicit inputs of the model; theorems hold for every hash function / draw stream",
+    "Merkle theorems assume injective, domain-separated leaf/inner hashes (sha256 collision freedom; leaf preimages contain ':' and inner preimages do not); values are compared by repr",
+    "PrimFloat/PrimInt63 kernel primitives = CPython binary64 arithmetic (IEEE 754 round-to-nearest-even, correctly rounded sqrt); listed by Print Assumptions for c20_tdigest_float_*_refuted only; checked bit-exactly on every t-digest case",
+    "t-digest range clause is proved over exact rationals only (c20_tdigest_exact_range_partial); monotonicity in q is not proved, it is checked by the oracle on every generated digest",
 ]
 
 
 def run(ctx):
-    ctx.prove(PROOF_FILES, allowed_axioms=(), trusted_base=TRUSTED)
+    ctx.prove(PROOF_FILES, allowed_axioms=FLOAT_PRIMS, trusted_base=TRUSTED)
     n = ctx.n(120, 3000)
     fctx = FastCtx(ctx)
     stats = []
